@@ -33,8 +33,9 @@ PROPS["C18"] = dict(
     bounds={"query path": "<=5 bytes quick / <=7 thorough, every byte value, restricted to '' or filepath.Clean-stable absolute paths",
             "entries per set": "1 (quick) / 2 (thorough) raw map entries of <=4/5 symbolic bytes + symbolic SystemRoot flag",
             "cascade instances": "fixed entry lengths per instance (see harness names), all bytes symbolic",
-            "counter": "one inductive step from an arbitrary 64-bit counter value (> -2^62)"},
-    outside=["filepath.EvalSymlinks itself (realPath is a stub returning an arbitrary clean-stable string or '')",
+            "counter": "one inductive step from an arbitrary 64-bit counter value (> -2^62)",
+            "resolver contract": "name of 4 symbolic bytes, resolver answer of 2, one readable/soft-ban entry of 2 + SystemRoot flag"},
+    outside=["filepath.EvalSymlinks itself (stubbed: in the cascade harnesses realPath returns an arbitrary clean-stable string or ''; in VerifC18_RealPath the real realPath runs over an arbitrary (result, error) pair of EvalSymlinks)",
              "relative or non-clean query paths (the tracer never presents them)", "longer paths/entries than the stated bounds"],
     assumptions=["realPath stub: arbitrary result", "map iteration order is irrelevant to the code under test"],
     harnesses=[
@@ -43,6 +44,7 @@ PROPS["C18"] = dict(
         dict(pkg=FH, run="^VerifC18_Cascade_Q1$", tiers=["quick", "thorough"], replay="native", reach=["allow", "ban", "kill"]),
         dict(pkg=FH, run="^VerifC18_Cascade_Q2$", tiers=["quick", "thorough"], replay="native", reach=["allow", "ban", "kill"]),
         dict(pkg=FH, run="^VerifC18_Cascade_Q3$", tiers=["quick", "thorough"], replay="native", reach=["kill"]),
+        dict(pkg=FH, run="^VerifC18_RealPath$", tiers=["quick", "thorough"], replay="model", reach=["unresolvable", "resolved"]),
         dict(pkg=FH, run="^VerifC18_InSet_Thorough$", tiers=["thorough"], replay="native", timeout=3000, reach=["admitted", "refused"]),
         dict(pkg=FH, run="^VerifC18_Cascade_T1$", tiers=["thorough"], replay="native", timeout=1800),
         dict(pkg=FH, run="^VerifC18_Cascade_T2$", tiers=["thorough"], replay="native", timeout=3000),
@@ -283,6 +285,7 @@ PROPS["C10"] = dict(
     harnesses=[
         dict(pkg=CT, run="^VerifC10_Ops1$", tiers=["quick", "thorough"], replay="model", preempt=1, timeout=1500, reach=["final-ping", "exec-fails-after-sync", "start-fails-early", "sync-refused", "lookup-fails", "program-runs"]),
         dict(pkg=CT, run="^VerifC10_Ops1Cancel$", tiers=["quick", "thorough"], replay="model", preempt=1, timeout=1500, reach=["cancelled-run", "program-verdict"]),
+        dict(pkg=CT, run="^VerifC10_StaleCommand$", tiers=["quick", "thorough"], replay="model", preempt=0, timeout=1500, reach=["both-runs", "no-arguments"]),
         dict(pkg=CT, run="^VerifC10_Ops1Break$", tiers=["quick", "thorough"], replay="model", preempt=1, timeout=3000, reach=["transport-lost", "ping-after-loss"]),
         # the container init is killed at an arbitrary transport event around a call: end-of-file on the host side
         dict(pkg=CT, run="^VerifC10_InitDies$", replay="model", preempt=1, timeout=1500, reach=["init-killed", "call-returned", "call-failed"]),
